@@ -25,9 +25,12 @@ from __future__ import annotations
 
 import contextlib
 import itertools
+import multiprocessing as mp
+import os
 import re
 import signal
 import threading
+import time
 
 from bounded.common import Check, rng
 from spec.vt100 import ANY, VT100, Ambiguous, OutOfSubset
